@@ -60,6 +60,36 @@ CLAIMED = {
         design='DESIGN.md §5 C15',
         note=NOTE_COMMON + 'NULL pivot keys raise TypeError (known finding F-20); pivot keys of one comparable class.',
         technique='Lean 4 proof of block placement/width + differential correspondence + un-pivot oracle'),
+    'C07': dict(
+        text=('Lean theorems over the compile/exec model: the naming rule (alias / column name / source text); compiled SELECT '
+              'targets are one per target, in order, all named; wildcard = the table\'s wildcard list in order; GROUP BY and '
+              'ORDER BY resolution only ever APPEND unnamed targets; the description ignores hidden targets; every result row is '
+              'a projection to the visible indexes (hidden values cannot leak) and its width equals the description width. Tied '
+              'to the code by correspondence on statements printed with random spacing/comments/case/parentheses and parsed by '
+              'the shipped parser, plus oracles on the implementation (row width, naming, re-parse of expression names).'),
+        design='DESIGN.md §5 C07',
+        note=NOTE_COMMON + 'Names are source slices provided by TatSu parseinfo (trusted).',
+        technique='Lean 4 proof over the compile model + differential correspondence on parsed text + naming oracle'),
+    'C08': dict(
+        text=('Lean theorems: the IN / NOT IN (subquery) truth table (NULL when x is NULL or the subquery is empty, else '
+              'membership; NOT IN the dual) for the node the compiler builds; the table a subquery exposes has one positional '
+              'accessor per visible inner target under the inner names and datatypes (distinct names), with the duplicate-name '
+              'witness. The model materialises subqueries, so FROM (q) = outer over the materialised q holds by construction in '
+              'the model and is tied to the code by correspondence (random inner/outer queries nested to depth 3, IN-subqueries '
+              'over a different table) and by a materialisation oracle run on the implementation itself.'),
+        design='DESIGN.md §5 C08',
+        note=NOTE_COMMON + 'Subqueries cannot reference the outer row (BQL restriction).',
+        technique='Lean 4 proof (IN truth table, subquery table) + differential correspondence + materialisation oracle'),
+    'C09': dict(
+        text=('Lean theorems: a placeholder compiles to what the literal of its bound value compiles to; positional parameters '
+              'bind in ascending source position (sorted positions proved); named parameters bind by name; constant folding '
+              'preserves value and datatype on every row; the model\'s execution is a pure function of (tables, parameters, '
+              'statement), and the AST-numbering state machine of the old compiler is shown to break re-execution while the '
+              'repaired one is history independent for all histories. Tied to the code by correspondence (binding), a '
+              'literal-substitution oracle, a folding oracle, and execution histories compared with fresh executions.'),
+        design='DESIGN.md §5 C09',
+        note=NOTE_COMMON + 'Absence of source-data mutation is checked by snapshot only.',
+        technique='Lean 4 proof (binding, folding, placeholder state machine) + history correspondence vs fresh execution'),
 }
 
 PENDING_REASON = 'check under construction in this round (model or correspondence not yet registered); not claimed yet'
